@@ -111,7 +111,34 @@ def check_term(term, part):
                          'layouts': sorted(docalg.tokens_text(t) for t in seen)[:4]})
 
 
+def contexts():
+    """Larger documents composed from small ones (they replace the quantifier's "random larger ones"):
+    every context below filled with every pair (X, Y) of small terms."""
+    T = lambda s: ['t', s]     # noqa
+    return [
+        lambda X, Y: ['group', ['cat', [X, ['hardline'], Y]]],
+        lambda X, Y: ['group', ['cat', [T('a'), ['hardline'], ['group', ['cat', [T('b'), ['line'], Y]]], X]]],
+        lambda X, Y: ['group', ['cat', [X, ['line'], ['group', ['cat', [T('b'), ['line'], Y]]]]]],
+        lambda X, Y: ['fill', [X, ['line'], ['group', ['cat', [T('b'), ['line'], Y]]], ['line'], T('c')]],
+        lambda X, Y: ['cat', [['group', ['cat', [X, ['line'], T('bb')]]], ['nest', 2, ['cat', [['line'], Y]]]]],
+        lambda X, Y: ['group', ['nest', 2, ['cat', [X, ['softline'], ['fc', Y, T('flat')], ['line'], T('z')]]]],
+        lambda X, Y: ['ann', 'other', ['group', ['cat', [['align', ['cat', [X, ['line'], Y]]], ['line'], T('d')]]]],
+    ]
+
+
 def work(item):
+    if item[0] == 'contexts':
+        _, ci, nx, ny, lo, hi = item
+        part = core.Part()
+        a = alphabet('full')
+        ctx = contexts()[ci]
+        xs = [t for k in range(1, nx + 1) for t in a.terms(k)]
+        ys = [t for k in range(1, ny + 1) for t in a.terms(k)]
+        with core.deadline(3600):
+            for X, Y in itertools.islice(itertools.product(xs, ys), lo, hi):
+                check_term(ctx(X, Y), part)
+                part.c['terms'] += 1
+        return part
     aname, n, lo, hi = item
     part = core.Part()
     a = alphabet(aname)
@@ -134,6 +161,13 @@ def plan(tier, seed):
         for lo, hi in core.chunks(total, 1 if total < 2000 else 96):
             items.append(('full', n, lo, hi))
         desc.append('full algebra size %d: %d terms' % (n, total))
+    nx, ny = (1, 3) if tier == 'quick' else (2, 3)
+    nxs = sum(full.count(k) for k in range(1, nx + 1))
+    nys = sum(full.count(k) for k in range(1, ny + 1))
+    for ci in range(len(contexts())):
+        for lo, hi in core.chunks(nxs * nys, 12 if tier == 'quick' else 64):
+            items.append(('contexts', ci, nx, ny, lo, hi))
+    desc.append('%d contexts of 6-11 nodes x every pair of terms with <= %d and <= %d nodes (%d composed documents)' % (len(contexts()), nx, ny, len(contexts()) * nxs * nys))
     if tier == 'quick':
         # seed-rotated contiguous slice of the next size (a subset of the thorough tier)
         full.terms(5)
